@@ -24,6 +24,7 @@ def run(chk):
     cs = CaseSet("c01")
     plan = []   # oracle plan: dicts referencing answer indices
     for wi in range(nworlds):
+        rng.seed("%d/c01-1/%d" % (chk.seed, wi))      # every world has its own stream: families do not disturb each other
         if wi % 4 == 3:
             from worlds import any_world
             wj, sph = any_world(rng, lines=0.6)        # slabs and faults too (the models that call back the world temperature among them)
@@ -72,6 +73,7 @@ def run(chk):
     from qgen import TOP
     gg = Gen(rng)
     for wi in range(6 if chk.tier == "quick" else 60):
+        rng.seed("%d/c01-2/%d" % (chk.seed, wi))      # every world has its own stream: families do not disturb each other
         x0 = float(round(rng.uniform(-3e5, 3e5)))
         side = rng.choice([-1.0, 1.0])
         dip = float(rng.choice([30, 45, 60]))
